@@ -203,6 +203,31 @@ def run(repo, R):
                     expected="AO-count comparison only when transform is None", found="path: " + cond_text(conds)[:120])
         else:
             raise AnalysisError("D2", f"size comparison against an unrecognised quantity `{ast.unparse(other)[:50]}`", f.where(node))
+    # the checks must let the matching size through and count the atomic orbitals of the branch they sit in
+    from ..flow import branch_state
+    for node, other, conds, st in compares:
+        holder = stmt_of(fn, node)
+        if isinstance(holder, ast.If) and holder.test is node:
+            raises = bool(holder.body) and isinstance(holder.body[-1], ast.Raise)
+            R.check(raises and isinstance(node.ops[0], ast.NotEq), "D2", f.site, "size check rejects a mismatch only: " + ast.unparse(node)[:70],
+                    "the size check of the density matrix raises when the sizes MATCH (or does not raise when they differ): every valid call is rejected",
+                    where=f.where(node), expected="if <expected size> != one_density_matrix.shape[0]: raise", found=ast.unparse(node)[:100])
+        deps = {n.id for n in ast.walk(other) if isinstance(n, ast.Name)}
+        if "basis" not in deps:
+            continue
+        tr_, ty_ = branch_state(conds)
+        per_type = ao_count_per_type(other)
+        if per_type is None:
+            raise AnalysisError("D2", f"expected size `{ast.unparse(other)[:60]}` is not a sum over the shells of (functions per shell) x (segments)", f.where(node))
+        NS, NC, M_ = sp.symbols("num_sph num_cart num_seg_cont", positive=True)
+        want = {"cartesian": NC * M_, "spherical": NS * M_}
+        types = {"cartesian": ["cartesian"], "spherical": ["spherical"], "mix": ["cartesian", "spherical"], "any": ["cartesian", "spherical"],
+                 "partial": ["cartesian", "spherical"]}.get(ty_, ["cartesian", "spherical"])
+        for tname in types:
+            got = per_type.get(tname)
+            R.check(got is not None and sp.simplify(got - want[tname]) == 0, "D2", f.site, f"atomic-orbital count of a {tname} shell in `{ast.unparse(other)[:50]}`",
+                    f"on this branch a {tname} shell is counted as {got} functions; it contributes {want[tname]}: valid density matrices are rejected "
+                    f"(or wrong ones accepted)", where=f.where(node), expected=str(want[tname]), found=str(got))
     R.check(have_tr, "D2", f.site, "size check on the transform path",
             "no size check of the density matrix against the transformation was found", where=f.where(),
             expected="one_density_matrix.shape[0] vs transform.shape[0]")
@@ -225,6 +250,57 @@ def run(repo, R):
             "expression equals +sum Z/d (thresholded) - sum P*I as a sympy identity given point_charge_integral(q) = -q*I; FWD "
             "basis/points/transform forwarded, unit negative charges. Decided: these structural clauses. Not decided: the values "
             "of the integrals (C03) and the axis bookkeeping of the two sums (left to AXTYPE).")
+
+
+def ao_count_per_type(expr):
+    """`sum(<per-shell count> for cont in basis)` / `... for cont, t in zip(basis, coord_type)`: the per-shell count as a sympy expression
+    for a cartesian and for a spherical shell ({type: expr}), or None if the expression is not of that form."""
+    if not (isinstance(expr, ast.Call) and dotted(expr.func) in ("sum", "np.sum") and len(expr.args) == 1
+            and isinstance(expr.args[0], (ast.GeneratorExp, ast.ListComp)) and len(expr.args[0].generators) == 1):
+        return None
+    g = expr.args[0].generators[0]
+    if g.ifs:
+        return None
+    shell_var = type_var = None
+    if isinstance(g.target, ast.Name):
+        shell_var = g.target.id
+    elif isinstance(g.target, ast.Tuple) and len(g.target.elts) == 2 and all(isinstance(x, ast.Name) for x in g.target.elts) \
+            and isinstance(g.iter, ast.Call) and dotted(g.iter.func) == "zip":
+        shell_var, type_var = g.target.elts[0].id, g.target.elts[1].id
+    else:
+        return None
+    NS, NC, M_ = sp.symbols("num_sph num_cart num_seg_cont", positive=True)
+    attr = {"num_sph": NS, "num_cart": NC, "num_seg_cont": M_}
+
+    def ev(e, tname):
+        if isinstance(e, ast.Constant) and isinstance(e.value, (int, float)) and not isinstance(e.value, bool):
+            return sp.nsimplify(e.value)
+        if isinstance(e, ast.Constant) and isinstance(e.value, str):
+            return e.value
+        if isinstance(e, ast.Name) and e.id == type_var:
+            return tname
+        if isinstance(e, ast.Attribute) and isinstance(e.value, ast.Name) and e.value.id == shell_var:
+            if e.attr in attr:
+                return attr[e.attr]
+            if e.attr == "coord_type":
+                return tname
+            raise ValueError(e.attr)
+        if isinstance(e, ast.BinOp) and isinstance(e.op, (ast.Mult, ast.Add, ast.Sub, ast.Div, ast.FloorDiv)):
+            l, r = ev(e.left, tname), ev(e.right, tname)
+            return {ast.Mult: l * r, ast.Add: l + r, ast.Sub: l - r, ast.Div: l / r, ast.FloorDiv: l / r}[type(e.op)]
+        if isinstance(e, ast.IfExp):
+            return ev(e.body, tname) if ev(e.test, tname) else ev(e.orelse, tname)
+        if isinstance(e, ast.Compare) and len(e.ops) == 1 and isinstance(e.ops[0], (ast.Eq, ast.NotEq)):
+            l, r = ev(e.left, tname), ev(e.comparators[0], tname)
+            return (l == r) if isinstance(e.ops[0], ast.Eq) else (l != r)
+        raise ValueError(type(e).__name__)
+    out = {}
+    for tname in ("cartesian", "spherical"):
+        try:
+            out[tname] = ev(expr.args[0].elt, tname)
+        except (ValueError, TypeError):
+            return None
+    return out
 
 
 def eval_through_defs(E, D, expr):
